@@ -12,7 +12,10 @@ RULE = ("cases = one program per toggle (every flagged / plain return type in th
         "another method's inherited, plain call, pass, nested, call placed in another method; 9 purge variants incl. purge of another "
         "variable, second argument, other method, other letter case; naming: member / parameter / local / type / constant x capitalised "
         "or not x override present or absent) + random files of 1..8 methods with all toggles drawn independently, each followed by a "
-        "method permutation and a re-casing; distinct_nontrivial = distinct implementation outputs with at least one item")
+        "method permutation and a re-casing + the discrepancy probes of corpus/C16/probes.txt + grammar-wide token programs (vlib/gen/prog.py: "
+        "every construct, token-level mutations, names colliding with the rule names) on which the real parser + analyzers are compared with "
+        "the model and, wherever the guards of the theorems hold, with the specification; "
+        "distinct_nontrivial = distinct implementation outputs with at least one item")
 
 
 def run(ctx):
